@@ -5,7 +5,22 @@
    Entry "cdo2": args [kind; connected; flusher; request; script; want]
                  outcome [result0; trace0; result1; trace1]   the same call without and with hooks
 
-     kind      0 NewTCPClientWithConfig, 1 NewRTUClientWithConfig, 2 NewSerialClient
+     kind      0 a TCP network client, 1 an RTU network client, 2 the serial client
+     ctor      (optional last argument, default 0) WHICH public constructor made the client:
+               TCP   0 NewTCPClientWithConfig(conf)  1 NewClient(conf)  2 NewClient(conf + the TCP functions)
+                     3 NewTCPClientWithConfig(conf + the RTU functions, which it must override)  4 NewTCPClient()
+               RTU   0 NewRTUClientWithConfig(conf)  1 NewClient(conf + the RTU functions)
+                     2 NewRTUClientWithConfig(conf + the TCP functions, which it must override)  4 NewRTUClient()
+               serial 0..2 NewSerialClient(port, options in different orders / given twice)
+               The model does NOT depend on it.  Of the configuration the model depends on: which
+               pair asProtocolErrorFunc / parseResponseFunc ends up in the client (= kind), whether
+               Hooks are set, whether the client is connected / has a port, whether the port is a
+               Flusher.  It does not depend on ReadTimeout / WriteTimeout (their expiry is a script
+               step), on DialContextFunc, or on the constructor.  ctor 4 takes no configuration:
+               the harness then talks through a real loopback connection, cannot observe the
+               transport calls and installs no hooks -- the trace of such a case is [] by convention
+               (and only request types with an exact ExpectedResponseLength are used, for which the
+               result does not depend on how the kernel segments the stream: C07).
      request   []  (a nil packet.Request)  |  [constructor name; constructor args...] as in DispPacket.ctor_args
      script    [swd_err; write_err; flush_err; [step...]],  step = [ctx; timer_fired; pick_ctx; rd; bytes]
                ctx: 0 not done, 1 done with context.Canceled, 2 done with context.DeadlineExceeded
@@ -74,23 +89,31 @@ Definition dec_req (v : val) : option (option (creq * sreq)) :=
   | _ => None
   end.
 
-Record ccase := { cc_cfg : config; cc_req : option (creq * sreq); cc_script : script; cc_want : val }.
-Definition dec_case (a : list val) : option ccase :=
+Record ccase := { cc_cfg : config; cc_req : option (creq * sreq); cc_script : script; cc_want : val; cc_ctor : Z }.
+Definition dec_case_ctor (a : list val) (ctor : Z) : option ccase :=
   match a with
   | [VI k; VI conn; VI fl; VI hooks; rq; scv; want] =>
       match dec_kind k, dec_req rq, dec_script scv with
       | Some kd, Some r, Some s =>
           Some {| cc_cfg := {| c_kind := kd; c_connected := zbool conn; c_hooks := zbool hooks; c_flusher := zbool fl |};
-                  cc_req := r; cc_script := s; cc_want := want |}
+                  cc_req := r; cc_script := s; cc_want := want; cc_ctor := ctor |}
       | _, _, _ => None
       end
   | _ => None
   end.
+Definition dec_case (a : list val) : option ccase :=
+  match a with
+  | [k; conn; fl; hooks; rq; scv; want; VI ctor] => dec_case_ctor [k; conn; fl; hooks; rq; scv; want] ctor
+  | _ => dec_case_ctor a 0
+  end.
 Definition dec_case2 (a : list val) : option ccase :=
   match a with
-  | [k; conn; fl; rq; scv; want] => dec_case [k; conn; fl; VI 1%Z; rq; scv; want]
+  | [k; conn; fl; rq; scv; want] => dec_case_ctor [k; conn; fl; VI 1%Z; rq; scv; want] 0
+  | [k; conn; fl; rq; scv; want; VI ctor] => dec_case_ctor [k; conn; fl; VI 1%Z; rq; scv; want] ctor
   | _ => None
   end.
+(* the constructor without configuration: the transport calls cannot be observed *)
+Definition blind (c : ccase) : bool := Z.eqb (cc_ctor c) 4.
 
 (* ---------- projections model -> val ---------- *)
 Definition proj_site (s : site) : val :=
@@ -131,9 +154,11 @@ Definition run_case (c : ccase) (hooks : bool) : list val :=
                 c_hooks := hooks; c_flusher := c_flusher (cc_cfg c) |} in
   proj_result (client_do cfg (cc_script c) (option_map fst (cc_req c))).
 
+Definition blank_trace (l : list val) : list val :=
+  match l with [o; _] => [o; VL []] | _ => l end.
 Definition run_cdo (a : list val) : val :=
   match dec_case a with
-  | Some c => VL (run_case c (c_hooks (cc_cfg c)))
+  | Some c => VL (if blind c then blank_trace (run_case c (c_hooks (cc_cfg c))) else run_case c (c_hooks (cc_cfg c)))
   | None => v_bad
   end.
 Definition run_cdo2 (a : list val) : val :=
@@ -556,6 +581,7 @@ Definition verdict_cdo (p : N) (a : list val) (out : val) : N :=
   | Some c, VL [o; t] =>
       if p =? 7 then verdict_C07 c o
       else if p =? 8 then verdict_C08 c o t
+      else if blind c then NOT_JUDGED      (* C12 and C19 are judged on the trace *)
       else if p =? 12 then verdict_C12 c o t
       else if p =? 19 then verdict_C19_single c o t
       else NOT_JUDGED
@@ -577,8 +603,12 @@ Definition verdict_cdo2 (p : N) (a : list val) (out : val) : N :=
 (* ---------- sequences of calls on one client object: entry "cdoseq" ----------
    args [kind; port; flusher; hooks; [op...]]   port: the serial client was given a port
    op   [0; dial_fails] Connect | [1] Close | [2; request; script; want] Do
+   (optional sixth argument: ctor, as for "cdo"; not 4)
    outcome [r...], one per op:  [0] returned nil, [1] returned an error (Connect),
-   [result; trace] for Do, [98] the call did not return (watchdog) *)
+   [result; trace; late] for Do, [98] the call did not return (watchdog).
+   late: the response object returned by THIS call projected once more after ALL calls of the
+   sequence have been made: [tid; projected response; Bytes()] ([] if the call returned an error).
+   Values are immutable in the model: late is the early result again, with its encoding. *)
 Definition dec_op (v : val) : option (op * val) :=
   match v with
   | VL [VI 0%Z; VI f] => Some (OpConnect (zbool f), VL [])
@@ -601,15 +631,29 @@ Definition proj_opres (r : opres) : val :=
   | RClose => VL [VI 0%Z]
   | RDo x => VL (proj_result x)
   end.
+Definition late_of (k : kind) (x : outcome * list ev) : val :=
+  match fst x with
+  | OResp tid p =>
+      VL [vN tid; proj_resp p;
+          VB (if resp_reencodable p then (if is_tcp_kind k then resp_bytes_tcp tid p else resp_bytes_rtu p) else [])]
+  | _ => VL []
+  end.
+Definition proj_opres_late (k : kind) (r : opres) : val :=
+  match r with
+  | RDo x => VL (proj_result x ++ [late_of k x])
+  | _ => proj_opres r
+  end.
 Definition init_state (k : kind) (port : bool) : cstate :=
   {| st_conn := if is_serial k then port else false; st_closed := false |}.
+Definition seq_args (a : list val) : list val :=
+  match a with [k; port; fl; hooks; ops; VI _] => [k; port; fl; hooks; ops] | _ => a end.
 Definition run_cdoseq (a : list val) : val :=
-  match a with
+  match seq_args a with
   | [VI k; VI port; VI fl; VI hooks; VL ops] =>
       match dec_kind k, dec_ops ops with
       | Some kd, Some os =>
           let cfg0 := {| c_kind := kd; c_connected := false; c_hooks := zbool hooks; c_flusher := zbool fl |} in
-          VL (map proj_opres (run_ops cfg0 (init_state kd (zbool port)) (map fst os)))
+          VL (map (proj_opres_late kd) (run_ops cfg0 (init_state kd (zbool port)) (map fst os)))
       | _, _ => v_bad
       end
   | _ => v_bad
@@ -624,6 +668,33 @@ Definition closed_script_val (k : kind) (scv : val) : val :=
   | VL [swd; wr; fl; steps] => if is_serial k then VL [swd; VI 1%Z; fl; steps] else VL [VI 1%Z; wr; fl; steps]
   | _ => scv
   end.
+(* C07 across calls: what a call returned stays what it returned.  The response object, looked at
+   again after all later calls on the same client, still shows the same fields, and re-encodes to
+   the reply that was sent for THAT call ([exact]: the early result was the one C07 demands, so the
+   reply sent is the ADU of [want]) *)
+Definition late_consistent (k : kind) (a' : list val) (o late : val) (exact : bool) : bool :=
+  match o with
+  | VL [VI 0%Z; tid; pv] =>
+      match late with
+      | VL [tid'; pv'; VB bytes] =>
+          val_eqb tid tid' && val_eqb pv pv' &&
+          (negb exact ||
+           match dec_case a' with
+           | Some c =>
+               match cc_req c with
+               | Some (q, _) =>
+                   match want_frame (is_tcp_kind k) (q_tid q) (cc_want c) with
+                   | Some (frame, _, _) => (length bytes =? 0)%nat || list_eqb bytes frame
+                   | None => true
+                   end
+               | None => true
+               end
+           | None => true
+           end)
+      | _ => false
+      end
+  | _ => val_eqb late (VL [])
+  end.
 Definition judged_prop (p : N) : bool := (p =? 7) || (p =? 8) || (p =? 12) || (p =? 19).
 Fixpoint seq_verdicts (p : N) (k fl hooks : Z) (conn closed : bool) (ops : list (op * val)) (outs : list val) : list N :=
   match ops, outs with
@@ -637,7 +708,13 @@ Fixpoint seq_verdicts (p : N) (k fl hooks : Z) (conn closed : bool) (ops : list 
             if p =? 8 then (if val_eqb out (VL [VI (if is_serial kd || negb f then 0 else 1)%Z]) then HOLDS else VIOLATES) else NOT_JUDGED
         | OpClose, _ => if p =? 8 then (if val_eqb out (VL [VI 0%Z]) then HOLDS else VIOLATES) else NOT_JUDGED
         | OpDo _ _, VL [rq; scv; want] =>
-            verdict_cdo p [VI k; vbool conn; VI fl; VI hooks; rq; (if closed then closed_script_val kd scv else scv); want] out
+            match out with
+            | VL [o; t; late] =>
+                let a' := [VI k; vbool conn; VI fl; VI hooks; rq; (if closed then closed_script_val kd scv else scv); want] in
+                let v := verdict_cdo p a' (VL [o; t]) in
+                if (p =? 7) && negb (late_consistent kd a' o late (v =? HOLDS)) then VIOLATES else v
+            | _ => VIOLATES
+            end
         | _, _ => NOT_JUDGED
         end in
       let conn' := match o with OpConnect f => if is_serial kd || f then conn else true | _ => conn end in
@@ -657,7 +734,7 @@ Definition combine (vs : list N) : N :=
   end.
 Definition verdict_cdoseq (p : N) (a : list val) (out : val) : N :=
   if negb (judged_prop p) then NOT_JUDGED else
-  match a, out with
+  match seq_args a, out with
   | [VI k; VI port; VI fl; VI hooks; VL ops], VL outs =>
       match dec_kind k, dec_ops ops with
       | Some kd, Some os =>
